@@ -24,18 +24,25 @@ let parse_q (s : string) : P.q =
 
 (* canonical text of a Q: reduce to num/2^k as the harness prints doubles *)
 let rec pos_to_int = function P.XH -> 1 | P.XO p -> 2 * pos_to_int p | P.XI p -> 2 * pos_to_int p + 1
+(* structural on the binary positives: the denominator may be 2^63 and more (a
+   uniform variate below 2^-10), which does not fit an OCaml int *)
 let q_text (q : P.q) =
-  let n = int_of_z q.P.qnum and d = pos_to_int q.P.qden in
-  if n = 0 then "0/1" else begin
-    let n = ref n and d = ref d in
-    while !n mod 2 = 0 && !d mod 2 = 0 do n := !n / 2; d := !d / 2 done;
-    let k = ref 0 and dd = ref !d in
-    while !dd > 1 do dd := !dd / 2; incr k done;
-    if !k = 0 then begin
-      let e = ref 0 and m = ref !n in
-      while !m mod 2 = 0 do m := !m / 2; incr e done;
-      Printf.sprintf "%d*2^%d/1" !m !e end
-    else Printf.sprintf "%d/2^%d" !n !k end
+  let strip_z = function
+    | P.Zpos (P.XO p) -> Some (P.Zpos p) | P.Zneg (P.XO p) -> Some (P.Zneg p) | _ -> None in
+  let rec reduce n d = match d, strip_z n with
+    | P.XO d', Some n' -> reduce n' d'
+    | _ -> (n, d) in
+  let rec log2 = function P.XH -> Some 0 | P.XO p -> (match log2 p with Some k -> Some (k + 1) | None -> None) | P.XI _ -> None in
+  if q.P.qnum = P.Z0 then "0/1" else begin
+    let (n, d) = reduce q.P.qnum q.P.qden in
+    match log2 d with
+    | None -> Printf.sprintf "%d/%d" (int_of_z n) (pos_to_int d)
+    | Some 0 ->
+      let e = ref 0 and m = ref n in
+      let continue = ref true in
+      while !continue do (match strip_z !m with Some m' -> m := m'; incr e | None -> continue := false) done;
+      Printf.sprintf "%d*2^%d/1" (int_of_z !m) !e
+    | Some k -> Printf.sprintf "%d/2^%d" (int_of_z n) k end
 
 let () =
   let draws = Hashtbl.create 100 in
